@@ -346,7 +346,7 @@ impl<Octs: Octets> Parameter<Octs> {
 }
 
 impl<Octs: Octets> Parameter<Octs> {
-    fn check(parser: &mut Parser<Octs>) -> Result<(), ParseError> {
+    fn check<'a>(parser: &mut Parser<'a, Octs>) -> Result<(), ParseError> {
         let typ = parser.parse_u8()?;
         let len = parser.parse_u8()? as usize;
         if typ == 2 {
@@ -354,7 +354,8 @@ impl<Octs: Octets> Parameter<Octs> {
             // Parameter, so we need to loop.
             let mut caps_parser = parser.parse_parser(len)?;
             while caps_parser.remaining() > 0 {
-                Capability::check(&mut caps_parser)?;
+                // The same checks the capabilities() iterator relies on.
+                Capability::<Octs::Range<'a>>::parse(&mut caps_parser)?;
             }
         } else {
             warn!("Optional Parameter in BGP OPEN other than Capability: {}",
@@ -368,15 +369,6 @@ impl<Octs: Octets> Parameter<Octs> {
 }
 
 impl<Octs: Octets> Capability<Octs> {
-    fn check(parser: &mut Parser<Octs>) -> Result<(), ParseError> {
-        let _typ = parser.parse_u8()?;
-        let len = parser.parse_u8()? as usize;
-        parser.advance(len)?;
-        Ok(())
-    }
-}
-
-impl<Octs: Octets> Capability<Octs> {
     fn parse<'a, Ref>(parser: &mut Parser<'a, Ref>)
         -> Result<Self, ParseError>
     where
@@ -385,14 +377,17 @@ impl<Octs: Octets> Capability<Octs> {
         let pos = parser.pos();
         let typ = parser.parse_u8()?;
         let len = parser.parse_u8()? as usize;
+        // The content checks below only ever look at the octets of this
+        // capability itself.
+        let mut value = parser.parse_parser(len)?;
         match typ.into() {
             CapabilityType::Reserved => {
                 warn!("Capability type Reserved");
             },
             CapabilityType::MultiProtocol => {
-                let _afi = parser.parse_u16_be()?;
-                let _rsvd = parser.parse_u8()?;
-                let _safi = parser.parse_u8()?;
+                let _afi = value.parse_u16_be()?;
+                let _rsvd = value.parse_u8()?;
+                let _safi = value.parse_u8()?;
             },
             CapabilityType::RouteRefresh => {
                 if len != 0 {
@@ -402,22 +397,22 @@ impl<Octs: Octets> Capability<Octs> {
                 }
             },
             CapabilityType::OutboundRouteFiltering => {
-                let _afi = parser.parse_u16_be()?;
-                let _rsvd = parser.parse_u8()?;
-                let _safi = parser.parse_u8()?;
+                let _afi = value.parse_u16_be()?;
+                let _rsvd = value.parse_u8()?;
+                let _safi = value.parse_u8()?;
 
-                let num_orfs = parser.parse_u8()?;
+                let num_orfs = value.parse_u8()?;
                 for _ in 0..num_orfs {
-                    let _orf_type = parser.parse_u8()?;
-                    let _send_receive = parser.parse_u8()?;
+                    let _orf_type = value.parse_u8()?;
+                    let _send_receive = value.parse_u8()?;
                 }
             },
             CapabilityType::ExtendedNextHop => {
-                while parser.pos() < pos + len {
-                    let _afi = parser.parse_u16_be()?;
+                while value.remaining() > 0 {
+                    let _afi = value.parse_u16_be()?;
                     // Note that SAFI is 2 bytes for this Capability.
-                    let _safi = parser.parse_u16_be()?;
-                    let _nexthop_afi = parser.parse_u16_be()?;
+                    let _safi = value.parse_u16_be()?;
+                    let _nexthop_afi = value.parse_u16_be()?;
                 }
             },
             CapabilityType::ExtendedMessage => {
@@ -428,10 +423,10 @@ impl<Octs: Octets> Capability<Octs> {
                 }
             },
             CapabilityType::MultipleLabels => {
-                while parser.pos() < pos + len {
-                    let _afi = parser.parse_u16_be()?;
-                    let _safi = parser.parse_u8()?;
-                    let _count = parser.parse_u8()?;
+                while value.remaining() > 0 {
+                    let _afi = value.parse_u16_be()?;
+                    let _safi = value.parse_u8()?;
+                    let _count = value.parse_u8()?;
                 }
             },
             CapabilityType::BgpRole => {
@@ -440,35 +435,40 @@ impl<Octs: Octets> Capability<Octs> {
                             "ExtendedMessage Capability with length != 1"
                     ));
                 }
-                let _role = parser.parse_u8()?;
+                let _role = value.parse_u8()?;
             },
             CapabilityType::GracefulRestart => {
-                let _restart_flags_and_time = parser.parse_u16_be()?;
-                while parser.pos() < pos + len {
-                    let _afi = parser.parse_u16_be()?;
-                    let _safi = parser.parse_u8()?;
-                    let _flags = parser.parse_u8()?;
+                let _restart_flags_and_time = value.parse_u16_be()?;
+                while value.remaining() > 0 {
+                    let _afi = value.parse_u16_be()?;
+                    let _safi = value.parse_u8()?;
+                    let _flags = value.parse_u8()?;
                 }
             },
             CapabilityType::FourOctetAsn => {
-                let _asn = parser.parse_u32_be()?;
+                if len != 4 {
+                    return Err(ParseError::form_error(
+                            "FourOctetAsn Capability with length != 4"
+                    ));
+                }
+                let _asn = value.parse_u32_be()?;
             },
             CapabilityType::DeprecatedDynamicCapability 
             | CapabilityType::DynamicCapability => {
                 for _ in 0..len {
-                    let _cap = parser.parse_u8()?;
+                    let _cap = value.parse_u8()?;
                 }
             },
             CapabilityType::Multisession => {
-                let _flags = parser.parse_u8()?;
+                let _flags = value.parse_u8()?;
                 for _ in 0..len-1 {
-                    let _session_id = parser.parse_u8()?;
+                    let _session_id = value.parse_u8()?;
                 }
             },
             CapabilityType::AddPath => {
-                let _afi = parser.parse_u16_be()?;
-                let _safi = parser.parse_u8()?;
-                let send_receive = parser.parse_u8()?;
+                let _afi = value.parse_u16_be()?;
+                let _safi = value.parse_u8()?;
+                let send_receive = value.parse_u8()?;
                 if send_receive > 3 {
                     return Err(ParseError::form_error(
                             "Capability AddPath send/receive not 1,2 or 3"
@@ -483,30 +483,30 @@ impl<Octs: Octets> Capability<Octs> {
                 }
             },
             CapabilityType::LongLivedGracefulRestart => {
-                while parser.pos() < pos + len {
-                    let _afi = parser.parse_u16_be()?;
-                    let _safi = parser.parse_u8()?;
-                    let _flags = parser.parse_u8()?;
+                while value.remaining() > 0 {
+                    let _afi = value.parse_u16_be()?;
+                    let _safi = value.parse_u8()?;
+                    let _flags = value.parse_u8()?;
                     // 24 bits of staletime
-                    let _ll_staletime_1 = parser.parse_u16_be()?;
-                    let _ll_staletime_2 = parser.parse_u8()?;
+                    let _ll_staletime_1 = value.parse_u16_be()?;
+                    let _ll_staletime_2 = value.parse_u8()?;
                 }
             },
             CapabilityType::FQDN => {
-                let hostname_len = parser.parse_u8()? as usize;
-                parser.advance(hostname_len)?;
-                let domain_len = parser.parse_u8()? as usize;
-                parser.advance(domain_len)?;
+                let hostname_len = value.parse_u8()? as usize;
+                value.advance(hostname_len)?;
+                let domain_len = value.parse_u8()? as usize;
+                value.advance(domain_len)?;
             },
             CapabilityType::SoftwareVersion => {
                 // As long as this Capability is not stable, jump over it
-                let len = parser.parse_u8()? as usize;
-                parser.advance(len)?;
+                let len = value.parse_u8()? as usize;
+                value.advance(len)?;
             },
             CapabilityType::PathsLimit => {
                 // As long as this Capability is not stable, jump over it
-                let len = parser.parse_u8()? as usize;
-                parser.advance(len)?;
+                let len = value.parse_u8()? as usize;
+                value.advance(len)?;
             },
             CapabilityType::PrestandardRouteRefresh => {
                 if len > 0 {
@@ -515,27 +515,27 @@ impl<Octs: Octets> Capability<Octs> {
                             "PrestandardRouteRefresh len > 0"
                     ));
                 }
-                while parser.pos() < pos + len {
-                    let _afi = parser.parse_u16_be()?;
-                    let _safi = parser.parse_u8()?;
-                    let _flags = parser.parse_u8()?;
+                while value.remaining() > 0 {
+                    let _afi = value.parse_u16_be()?;
+                    let _safi = value.parse_u8()?;
+                    let _flags = value.parse_u8()?;
                 }
             },
             CapabilityType::PrestandardOutboundRouteFiltering => {
-                let _afi = parser.parse_u16_be()?;
-                let _rsvd = parser.parse_u8()?;
-                let _safi = parser.parse_u8()?;
+                let _afi = value.parse_u16_be()?;
+                let _rsvd = value.parse_u8()?;
+                let _safi = value.parse_u8()?;
 
-                let num_orfs = parser.parse_u8()?;
+                let num_orfs = value.parse_u8()?;
                 for _ in 0..num_orfs {
-                    let _orf_type = parser.parse_u8()?;
-                    let _send_receive = parser.parse_u8()?;
+                    let _orf_type = value.parse_u8()?;
+                    let _send_receive = value.parse_u8()?;
                 }
             },
             CapabilityType::PrestandardMultisession => {
-                let _flags = parser.parse_u8()?;
+                let _flags = value.parse_u8()?;
                 for _ in 0..len-1 {
-                    let _session_id = parser.parse_u8()?;
+                    let _session_id = value.parse_u8()?;
                 }
             }
             CapabilityType::Unimplemented(u) => {
